@@ -1957,4 +1957,254 @@ theorem source_shapes_match' : C07.encShapes = modelEncShapes ∧ C07.resShapes 
   constructor <;> decide
 end Phase5Shapes
 
+/-! ### phase 6: logs that record the same id several times — order of records of different ids is irrelevant -/
+section Phase6
+
+theorem sameKeyOrder_refl (a : List Rec) : SameKeyOrder a a := fun _ => rfl
+theorem sameKeyOrder_symm {a b : List Rec} (h : SameKeyOrder a b) : SameKeyOrder b a := fun k => (h k).symm
+theorem sameKeyOrder_trans {a b c : List Rec} (h1 : SameKeyOrder a b) (h2 : SameKeyOrder b c) : SameKeyOrder a c :=
+  fun k => (h1 k).trans (h2 k)
+
+theorem pullKey_sameKeyOrder (k : RecKey) (recs : List Rec) : SameKeyOrder recs (pullKey k recs) := by
+  intro k'
+  unfold pullKey
+  rw [List.filter_append, List.filter_filter, List.filter_filter]
+  by_cases h : k' = k
+  · subst h
+    have h1 : (recs.filter (fun r => decide (recKey r = k') && !decide (recKey r = k'))) = [] := by
+      apply List.filter_eq_nil_iff.mpr; intro r _; simp
+    rw [h1, List.append_nil]
+    congr 1; funext r; simp
+  · have h1 : (recs.filter (fun r => decide (recKey r = k') && decide (recKey r = k))) = [] := by
+      apply List.filter_eq_nil_iff.mpr; intro r _
+      by_cases hr : recKey r = k'
+      · simp [hr, h]
+      · simp [hr]
+    rw [h1, List.nil_append]
+    congr 1; funext r
+    by_cases hr : recKey r = k'
+    · simp [hr, h]
+    · simp [hr]
+
+theorem regroupBy_sameKeyOrder' (ks : List RecKey) (recs : List Rec) : SameKeyOrder recs (regroupBy ks recs) := by
+  unfold regroupBy
+  induction ks generalizing recs with
+  | nil => exact sameKeyOrder_refl recs
+  | cons k ks ih =>
+    simp only [List.foldl_cons]
+    exact sameKeyOrder_trans (pullKey_sameKeyOrder k recs) (ih _)
+
+theorem regroupBy_perm (ks : List RecKey) (recs : List Rec) : (regroupBy ks recs).Perm recs := by
+  unfold regroupBy
+  induction ks generalizing recs with
+  | nil => exact List.Perm.refl _
+  | cons k ks ih =>
+    simp only [List.foldl_cons]
+    refine (ih _).trans ?_
+    unfold pullKey
+    exact List.filter_append_perm _ _
+
+/-- the records of one id of table `t`, in log order, are those of the key `comp t id` -/
+theorem compsOf_filter (t : Tbl) (id : Int) (recs : List Rec) :
+    (compsOf t recs).filter (fun ip => decide (ip.1 = id)) = compsOf t (recs.filter (fun r => decide (recKey r = .comp t id))) := by
+  induction recs with
+  | nil => simp [compsOf]
+  | cons r rs ih =>
+    cases r with
+    | version n => simp [compsOf, recKey, List.filter_cons, ih]
+    | experiment d => simp [compsOf, recKey, List.filter_cons, ih]
+    | inter ids c n => simp [compsOf, recKey, List.filter_cons, ih]
+    | comp t' id' p =>
+      by_cases ht : t' = t
+      · by_cases hi : id' = id
+        · subst ht; subst hi; simp [compsOf, recKey, List.filter_cons, ih]
+        · subst ht; simp [compsOf, recKey, List.filter_cons, ih, hi]
+      · simp [compsOf, recKey, List.filter_cons, ih, ht]
+
+def keyed (l : List (List Int × Packed)) : List (List Int × Packed) := l.map (fun ic => (triKey ic.1, ic.2))
+
+theorem intersOf_filter (k : List Int) (recs : List Rec) :
+    (keyed (intersOf recs)).filter (fun ic => ic.1 == k) = keyed (intersOf (recs.filter (fun r => decide (recKey r = .inter k)))) := by
+  induction recs with
+  | nil => simp [intersOf, keyed]
+  | cons r rs ih =>
+    unfold keyed at ih ⊢
+    cases r with
+    | version n => simp [intersOf, recKey, List.filter_cons, ih]
+    | experiment d => simp [intersOf, recKey, List.filter_cons, ih]
+    | comp t' id' p => simp [intersOf, recKey, List.filter_cons, ih]
+    | inter ids c n =>
+      by_cases hk : triKey ids = k
+      · simp [intersOf, recKey, List.filter_cons, ih, hk]
+      · simp [intersOf, recKey, List.filter_cons, ih, hk]
+
+theorem foldl_mergeInter_keyed (l acc : List (List Int × Packed)) :
+    l.foldl mergeInter acc = (keyed l).foldl (fun a kv => upsert kv.1 kv.2 a) acc := by
+  unfold keyed
+  rw [List.foldl_map]
+  rfl
+
+theorem lookup_filter_key {κ β : Type} [BEq κ] [LawfulBEq κ] (l : List (κ × β)) (k : κ) :
+    (l.filter (fun p => p.1 == k)).lookup k = l.lookup k := by
+  induction l with
+  | nil => rfl
+  | cons p l ih =>
+    obtain ⟨k₁, v₁⟩ := p
+    by_cases h : k₁ = k
+    · subst h; simp [List.filter_cons, List.lookup]
+    · have hb : (k == k₁) = false := by simpa using (fun e : k = k₁ => h e.symm)
+      simp [List.filter_cons, h, List.lookup, hb, ih]
+
+/-- two dictionaries (distinct keys) with the same value for every key hold the same items -/
+theorem perm_of_lookup_eq {κ β : Type} [BEq κ] [LawfulBEq κ] (a b : List (κ × β))
+    (ha : (a.map (·.1)).Nodup) (hb : (b.map (·.1)).Nodup) (h : ∀ k, a.lookup k = b.lookup k) : a.Perm b := by
+  have mem_iff : ∀ (l : List (κ × β)), (l.map (·.1)).Nodup → ∀ p : κ × β, p ∈ l ↔ l.lookup p.1 = some p.2 := by
+    intro l
+    induction l with
+    | nil => intro _ p; simp
+    | cons q l ih =>
+      intro hn p
+      obtain ⟨k₁, v₁⟩ := q
+      obtain ⟨k, v⟩ := p
+      simp only [List.map_cons, List.nodup_cons] at hn
+      by_cases hk : k = k₁
+      · subst hk
+        simp only [List.mem_cons, List.lookup, beq_self_eq_true, Option.some.injEq, Prod.mk.injEq, true_and]
+        constructor
+        · rintro (h | h)
+          · exact h.symm
+          · exact absurd (List.mem_map_of_mem (f := (·.1)) h) hn.1
+        · intro h; exact Or.inl h.symm
+      · have hb : (k == k₁) = false := by simpa using hk
+        simp only [List.mem_cons, Prod.mk.injEq, hk, false_and, false_or, List.lookup, hb]
+        exact ih hn.2 (k, v)
+  have na : a.Nodup := List.Nodup.of_map _ ha
+  have nb : b.Nodup := List.Nodup.of_map _ hb
+  rw [List.perm_ext_iff_of_nodup na nb]
+  intro p
+  rw [mem_iff a ha p, mem_iff b hb p, h]
+
+theorem ltId_asymm (a b : Int × Row) (h : ltId a b = true) : ltId b a = false := by
+  unfold ltId at *
+  simp only [decide_eq_true_eq, decide_eq_false_iff_not] at *
+  omega
+
+theorem ltId_trans (a b c : Int × Row) (h1 : leOf ltId a b) (h2 : leOf ltId b c) : leOf ltId a c := by
+  unfold leOf ltId at *
+  simp only [decide_eq_false_iff_not] at *
+  omega
+
+theorem ltId_anti (l : List (Int × Row)) (hnd : (l.map (·.1)).Nodup) :
+    ∀ a ∈ l, ∀ b ∈ l, leOf ltId a b → leOf ltId b a → a = b := by
+  intro a ha b hb h1 h2
+  unfold leOf ltId at *
+  simp only [decide_eq_false_iff_not] at *
+  have : a.1 = b.1 := by omega
+  exact List.inj_on_of_nodup_map hnd ha hb this
+
+theorem ltTri_asymm (a b : List Int × Packed) (h : ltTri a b = true) : ltTri b a = false := by
+  unfold ltTri at *
+  rw [ltIds_iff] at h
+  rw [Bool.eq_false_iff, ne_eq, ltIds_iff]
+  exact lt_asymm h
+
+theorem ltTri_trans (a b c : List Int × Packed) (h1 : leOf ltTri a b) (h2 : leOf ltTri b c) : leOf ltTri a c := by
+  unfold leOf ltTri at *
+  rw [Bool.eq_false_iff, ne_eq, ltIds_iff] at *
+  exact not_lt.mpr (le_trans (not_lt.mp h1) (not_lt.mp h2))
+
+theorem ltTri_anti (l : List (List Int × Packed)) (hnd : (l.map (·.1)).Nodup) :
+    ∀ a ∈ l, ∀ b ∈ l, leOf ltTri a b → leOf ltTri b a → a = b := by
+  intro a ha b hb h1 h2
+  unfold leOf ltTri at *
+  rw [Bool.eq_false_iff, ne_eq, ltIds_iff] at *
+  have : a.1 = b.1 := le_antisymm (not_lt.mp h1) (not_lt.mp h2)
+  exact List.inj_on_of_nodup_map hnd ha hb this
+
+theorem compRows_sameKeyOrder (t : Tbl) (a b : List Rec) (h : SameKeyOrder a b) : compRows t a = compRows t b := by
+  unfold compRows
+  have hnd : ∀ l : List (Int × Row), ((l.foldl mergeComp []).map (·.1)).Nodup := fun l => mergeComp_keys_nodup l [] (by simp)
+  apply sortBy_eq_of_perm ltId ltId_asymm ltId_trans _ _ _ (ltId_anti _ (hnd _))
+  apply perm_of_lookup_eq _ _ (hnd _) (hnd _)
+  intro id
+  rw [foldl_mergeComp_lookup, foldl_mergeComp_lookup, compsOf_filter, compsOf_filter, h (.comp t id)]
+
+theorem upsert_fold_keys_nodup {κ β : Type} [DecidableEq κ] (l acc : List (κ × β)) (h : (acc.map (·.1)).Nodup) :
+    ((l.foldl (fun a kv => upsert kv.1 kv.2 a) acc).map (·.1)).Nodup := by
+  induction l generalizing acc with
+  | nil => simpa
+  | cons p l ih => simp only [List.foldl_cons]; exact ih _ (upsert_keys_nodup _ _ _ h)
+
+theorem interRecs_sameKeyOrder (a b : List Rec) (h : SameKeyOrder a b) : interRecs a = interRecs b := by
+  unfold interRecs
+  rw [foldl_mergeInter_keyed, foldl_mergeInter_keyed]
+  have hnd : ∀ l : List (List Int × Packed), ((l.foldl (fun a kv => upsert kv.1 kv.2 a) []).map (·.1)).Nodup :=
+    fun l => upsert_fold_keys_nodup l [] (by simp)
+  apply sortBy_eq_of_perm ltTri ltTri_asymm ltTri_trans _ _ _ (ltTri_anti _ (hnd _))
+  apply perm_of_lookup_eq _ _ (hnd _) (hnd _)
+  intro k
+  rw [foldl_upsert_lookup, foldl_upsert_lookup]
+  have e : ∀ recs : List Rec, (keyed (intersOf recs)).reverse.lookup k
+      = (keyed (intersOf (recs.filter (fun r => decide (recKey r = .inter k))))).reverse.lookup k := by
+    intro recs
+    rw [← intersOf_filter, ← List.filter_reverse, lookup_filter_key]
+  rw [e a, e b, h (.inter k)]
+
+theorem lastExperiment_filter (recs : List Rec) :
+    lastExperiment recs = lastExperiment (recs.filter (fun r => decide (recKey r = .experiment))) := by
+  unfold lastExperiment
+  generalize ([] : Row) = acc
+  induction recs generalizing acc with
+  | nil => rfl
+  | cons r rs ih =>
+    cases r <;> simp [List.filter_cons, recKey, ih]
+
+theorem lastExperiment_sameKeyOrder (a b : List Rec) (h : SameKeyOrder a b) : lastExperiment a = lastExperiment b := by
+  rw [lastExperiment_filter a, lastExperiment_filter b, h .experiment]
+
+/-- [phase 6] the Result (rows of the four tables, `experiment`) and the padded tables of a log depend only on the relative order of the
+records of each single key: any rearrangement that keeps, for every id, its records in their order reads back the same -/
+theorem readLog_same_key_order' (fr : Bool) (n : Int) (a b : List Rec) (h : SameKeyOrder a b) :
+    readLog fr (.version n :: a) = readLog fr (.version n :: b) ∧ tablesOf fr (.version n :: a) = tablesOf fr (.version n :: b) := by
+  have hc : ∀ t, compTable t a = compTable t b := fun t => by unfold compTable; rw [compRows_sameKeyOrder t a b h]
+  constructor
+  · simp only [readLog, interRecs_sameKeyOrder a b h, lastExperiment_sameKeyOrder a b h, hc]
+  · simp only [tablesOf, interRecs_sameKeyOrder a b h, hc]
+
+theorem regroupLog_same' (fr : Bool) (recs : List Rec) :
+    readLog fr (regroupLog recs) = readLog fr recs ∧ tablesOf fr (regroupLog recs) = tablesOf fr recs := by
+  cases recs with
+  | nil => exact ⟨rfl, rfl⟩
+  | cons r rs =>
+    cases r with
+    | version n =>
+      have := readLog_same_key_order' fr n rs _ (regroupBy_sameKeyOrder' (rs.map recKey) rs)
+      exact ⟨this.1.symm, this.2.symm⟩
+    | experiment d => exact ⟨rfl, rfl⟩
+    | comp t id p => exact ⟨rfl, rfl⟩
+    | inter ids c k => exact ⟨rfl, rfl⟩
+
+theorem same_key_order_counterexample' :
+    (readLog true [.version 4, .comp .L 0 [("x", .int 1)], .comp .L 0 [("x", .int 2)]]).toOption.map (·.learners)
+        = some [[("learner_id", .int 0), ("x", .int 2)]]
+    ∧ (readLog true [.version 4, .comp .L 0 [("x", .int 2)], .comp .L 0 [("x", .int 1)]]).toOption.map (·.learners)
+        = some [[("learner_id", .int 0), ("x", .int 1)]] := by
+  constructor <;> rfl
+
+/-- [phase 6, key handling] field names / dictionary keys that are equal for Python (`1 == True == 1.0`) are different names on the wire -/
+theorem python_equal_names_kept_apart' (a b c : Val) :
+    pack [[(Key.int 1, a)], [(Key.bool true, b)], [(Key.other "1.0", c)]]
+      = [("1", [a, .none, .none]), ("1.0", [.none, .none, c]), ("True", [.none, b, .none])]
+    ∧ jsonify (.dict [(Key.int 1, a), (Key.bool true, b), (Key.other "1.0", c)])
+      = .dict [(Key.str "1", jsonify a), (Key.str "true", jsonify b), (Key.str "1.0", jsonify c)] := by
+  constructor
+  · have e : strKeys [[(Key.int 1, a)], [(Key.bool true, b)], [(Key.other "1.0", c)]] = ["1", "1.0", "True"] := by
+      simp only [strKeys, List.flatMap_cons, List.flatMap_nil, rowStrs, List.map_cons, List.map_nil, Key.pystr, List.append_nil, List.cons_append, List.nil_append]
+      decide
+    have h1 : toString (1 : Int) = "1" := by decide
+    simp [pack, e, packWith, cellOf, lookupLast, Key.pystr, h1]
+  · rfl
+
+end Phase6
+
 end Coba.C07
